@@ -117,6 +117,57 @@ def self_ref(kind: int, mv: int) -> str:
     return _check_table(snaps[0], {"a": 1}, None)
 
 
+CAPTURED = [lambda: [1, 2, [3]], lambda: {"k": [1], "j": "s"}, lambda: ValueError("bad", [7]), lambda: "scalar", lambda: ("a", ("b",))]
+
+
+def capture_table(ci: int, kind: int, t: int) -> str:
+    """
+    A deferred (method-capture / line-capture) snapshot: the frame variables collected at the trigger and the value
+    captured when the function / line completes end up in ONE table - still closed, one object one id, and the frame's
+    variables still resolve to the frame's objects after the capture has been merged in.
+    PRE: 0 <= ci <= 4 and 0 <= kind <= 1 and 0 <= t <= 8
+    POST: _ == ""
+    """
+    world.begin_path()
+    from deep.api.tracepoint.trigger import LocationAction, LineLocation, FunctionLocation, Trigger, Location
+    ci, kind, t = world.realize(ci), world.realize(kind), world.realize(t)
+    f_locals = graphs.template(t, 2 if t not in (5, 6) else 0)
+    value = CAPTURED[ci]()
+    w = World()
+    cfg = {"fire_count": -1, "fire_period": 0, "watches": [list(f_locals.keys())[0]],
+           "stage": "method_capture" if kind == 0 else "line_capture"}
+    act = LocationAction("tp1", None, cfg, LocationAction.ActionType.Snapshot)
+    loc = FunctionLocation("f.py", "fn", Location.Position.CAPTURE) if kind == 0 else LineLocation("f.py", 7, Location.Position.CAPTURE)
+    w.install([Trigger(loc, [act])])
+    frame = FakeFrame("/app/f.py", "fn", 7, f_locals)
+    w.event(frame, "call" if kind == 0 else "line", None)
+    if len(w.push.snapshots) != 0:
+        return "C07:capture:sent-before-completion"
+    frame.f_lineno = 8
+    if isinstance(value, Exception):
+        w.event(frame, "exception", (type(value), value, None))
+    else:
+        w.event(frame, "return", value)
+    world.reached()
+    if len(w.push.snapshots) != 1:
+        return "C07:capture:snapshot-not-delivered"
+    s = w.push.snapshots[0]
+    r = _check_table(s, f_locals, None)
+    if r:
+        return r
+    r = reader.check_frame_fidelity(s, 0, f_locals, 1024, 10, 5, require_all_locals=True)
+    if r:
+        return "C07:capture:frame-variables-resolve-wrongly-after-merge:" + r
+    caps = [x for x in s.watches if x.source == "CAPTURE"]
+    if len(caps) != 1 or caps[0].result is None:
+        return "C07:capture:result-missing"
+    v = s.var_lookup[caps[0].result.vid]
+    target = value.args if False else value
+    if v.hash != str(id(target)) and not isinstance(value, Exception):
+        return "C07:capture:result-is-another-object"
+    return ""
+
+
 class Job:
     def __init__(self, name, exc):
         self.name = name
@@ -227,6 +278,8 @@ CONDITIONS = [
          twins=["reach", "mutant:id_reuse@t == 5 and n == 0 and wi == 7", "mutant:no_dedup@t == 5 and n == 0 and wi == 7", "mutant:merge_drops@t == 0 and n == 2 and wi == 1"],
          timeout={"quick": 240, "thorough": 900},
          bounds="9 graph templates (incl. shared and cyclic) x 8x8 watch pairs (quick: first watch from 4) x UNBOUNDED symbolic max_variables"),
+    dict(fn="capture_table", cubes=["ci == %d and kind == %d" % (c, k) for c in range(5) for k in range(2)], twins=["reach"],
+         bounds="5 captured values (nested list, dict, exception with args, scalar, nested tuple) x method/line capture x 9 graph templates for the frame"),
     dict(fn="hostile_watch", cubes={"quick": ["ek == %d and where == %d and w3 == 1" % (e, wh) for e in range(5) for wh in range(2)],
                                     "thorough": ["ek == %d and where == %d" % (e, wh) for e in range(5) for wh in range(2)]},
          twins=["reach"], timeout={"quick": 240, "thorough": 900},
